@@ -1,7 +1,7 @@
 SPECIFICATION Spec
 CONSTANTS
  Variants <- MCVariants
- NBk = 3
+ NBk = 4
  Inits <- MCInits
  Runs = 1
  QueuePersists = FALSE
@@ -13,5 +13,7 @@ CONSTANTS
  DevBackupOverwrite = FALSE
  DevNoBackup = FALSE
  DevSeqOpenEarly = FALSE
+ DevLinkDirect = FALSE
+ DevBackupCount = FALSE
 INVARIANT NoEarlyEffect
 CHECK_DEADLOCK FALSE
